@@ -1,0 +1,462 @@
+//go:build verif
+
+package sftp
+
+// Re-exports for the verification harness in /verif (property C06): decoding INTO
+// packet values and buffers that are not zero (kept between decodes, or pre-populated
+// with byte slices of a given length and capacity). Compiled only with `-tags verif`;
+// wrappers only, no behaviour, no edits to existing code.
+
+import (
+	"bytes"
+	"encoding"
+	"fmt"
+
+	sshfx "github.com/pkg/sftp/internal/encoding/ssh/filexfer"
+	"github.com/pkg/sftp/internal/encoding/ssh/filexfer/openssh"
+)
+
+func verifHint(l, c int, fill byte) []byte {
+	if c < l {
+		c = l
+	}
+	b := make([]byte, c)
+	for i := range b {
+		b[i] = fill
+	}
+	return b[:l]
+}
+
+func verifClone(b []byte) []byte { return append([]byte{}, b...) }
+
+// ---- filexfer codec ----
+
+// VerifFxHeld is one filexfer packet value that is kept between decodes.
+type VerifFxHeld struct {
+	kind string
+	pkt  sshfx.Packet
+	init *sshfx.InitPacket
+	ver  *sshfx.VersionPacket
+}
+
+// VerifFxHold creates a zero packet value of the filexfer type for kind (the Kind names of VerifPkt, plus
+// "VFSRaw": the generic ExtendedReplyPacket, "ExtRaw": an ExtendedPacket of an unregistered extension).
+func VerifFxHold(kind string) (*VerifFxHeld, error) {
+	h := &VerifFxHeld{kind: kind}
+	switch kind {
+	case "Init":
+		h.init = new(sshfx.InitPacket)
+	case "Version":
+		h.ver = new(sshfx.VersionPacket)
+	case "Lstat":
+		h.pkt = new(sshfx.LStatPacket)
+	case "Open":
+		h.pkt = new(sshfx.OpenPacket)
+	case "Close":
+		h.pkt = new(sshfx.ClosePacket)
+	case "Read":
+		h.pkt = new(sshfx.ReadPacket)
+	case "Write":
+		h.pkt = new(sshfx.WritePacket)
+	case "Fstat":
+		h.pkt = new(sshfx.FStatPacket)
+	case "Setstat":
+		h.pkt = new(sshfx.SetstatPacket)
+	case "Fsetstat":
+		h.pkt = new(sshfx.FSetstatPacket)
+	case "Opendir":
+		h.pkt = new(sshfx.OpenDirPacket)
+	case "Readdir":
+		h.pkt = new(sshfx.ReadDirPacket)
+	case "Remove":
+		h.pkt = new(sshfx.RemovePacket)
+	case "Mkdir":
+		h.pkt = new(sshfx.MkdirPacket)
+	case "Rmdir":
+		h.pkt = new(sshfx.RmdirPacket)
+	case "Realpath":
+		h.pkt = new(sshfx.RealPathPacket)
+	case "Stat":
+		h.pkt = new(sshfx.StatPacket)
+	case "Rename":
+		h.pkt = new(sshfx.RenamePacket)
+	case "Readlink":
+		h.pkt = new(sshfx.ReadLinkPacket)
+	case "Symlink":
+		h.pkt = new(sshfx.SymlinkPacket)
+	case "ExtStatVFS", "ExtPosixRename", "ExtHardlink", "ExtFsync", "ExtRaw":
+		h.pkt = new(sshfx.ExtendedPacket)
+	case "Status":
+		h.pkt = new(sshfx.StatusPacket)
+	case "Handle":
+		h.pkt = new(sshfx.HandlePacket)
+	case "Data":
+		h.pkt = new(sshfx.DataPacket)
+	case "Name":
+		h.pkt = new(sshfx.NamePacket)
+	case "Attrs":
+		h.pkt = new(sshfx.AttrsPacket)
+	case "VFS":
+		h.pkt = new(openssh.StatVFSExtendedReplyPacket)
+	case "VFSRaw":
+		h.pkt = new(sshfx.ExtendedReplyPacket)
+	default:
+		return nil, fmt.Errorf("verif: unknown kind %q", kind)
+	}
+	return h, nil
+}
+
+// Prefill sets the byte-slice field of the held value (WritePacket.Data, DataPacket.Data, the Buffer behind
+// ExtendedReplyPacket.Data / ExtendedPacket.Data) to make([]byte, l, c) filled with fill up to its capacity.
+// It reports whether the kind has such a field.
+func (h *VerifFxHeld) Prefill(l, c int, fill byte) bool {
+	switch p := h.pkt.(type) {
+	case *sshfx.WritePacket:
+		p.Data = verifHint(l, c, fill)
+	case *sshfx.DataPacket:
+		p.Data = verifHint(l, c, fill)
+	case *sshfx.ExtendedReplyPacket:
+		p.Data = sshfx.NewBuffer(verifHint(l, c, fill))
+	case *sshfx.ExtendedPacket:
+		if h.kind != "ExtRaw" {
+			return false
+		}
+		p.Data = sshfx.NewBuffer(verifHint(l, c, fill))
+	default:
+		return false
+	}
+	return true
+}
+
+// Decode decodes body (what follows the type byte of a frame) into the held value, as it is. With scribble,
+// the source buffer is overwritten after the decode and before the value is looked at (the Packet interface
+// promises that UnmarshalPacketBody does not alias the buffer). It returns the value as a VerifPkt (deep copy)
+// and the held value's own re-encoding (complete frame).
+func (h *VerifFxHeld) Decode(body []byte, scribble bool) (VerifPkt, []byte, error) {
+	src := verifClone(body)
+	done := func() {
+		if scribble {
+			for i := range src {
+				src[i] ^= 0x5a
+			}
+		}
+	}
+	switch {
+	case h.init != nil:
+		err := h.init.UnmarshalBinary(src)
+		done()
+		v := VerifPkt{Kind: "Init", Version: h.init.Version}
+		for _, e := range h.init.Extensions {
+			v.Ext = append(v.Ext, [2]string{e.Name, e.Data})
+		}
+		if err != nil {
+			return v, nil, err
+		}
+		re, err := h.init.MarshalBinary()
+		return v, re, err
+	case h.ver != nil:
+		err := h.ver.UnmarshalBinary(src)
+		done()
+		v := VerifPkt{Kind: "Version", Version: h.ver.Version}
+		for _, e := range h.ver.Extensions {
+			v.Ext = append(v.Ext, [2]string{e.Name, e.Data})
+		}
+		if err != nil {
+			return v, nil, err
+		}
+		re, err := h.ver.MarshalBinary()
+		return v, re, err
+	}
+	buf := sshfx.NewBuffer(src)
+	id := buf.ConsumeUint32()
+	if buf.Err != nil {
+		return VerifPkt{}, nil, buf.Err
+	}
+	err := h.pkt.UnmarshalPacketBody(buf)
+	done()
+	v := VerifPkt{ID: id}
+	verifFromFxPacket(h.pkt, &v)
+	if err != nil {
+		return v, nil, err
+	}
+	re, err := sshfx.ComposePacket(h.pkt.MarshalPacket(id, nil))
+	return v, re, err
+}
+
+func verifFromFxPacket(pkt sshfx.Packet, v *VerifPkt) {
+	switch p := pkt.(type) {
+	case *sshfx.LStatPacket:
+		v.Kind, v.Path = "Lstat", p.Path
+	case *sshfx.OpenPacket:
+		v.Kind, v.Path, v.Pflags = "Open", p.Filename, p.PFlags
+		v.Flags, v.Stat = verifFromFxAttrs(&p.Attrs)
+	case *sshfx.ClosePacket:
+		v.Kind, v.Handle = "Close", p.Handle
+	case *sshfx.ReadPacket:
+		v.Kind, v.Handle, v.Offset, v.Len = "Read", p.Handle, p.Offset, p.Length
+	case *sshfx.WritePacket:
+		v.Kind, v.Handle, v.Offset, v.Data, v.Len = "Write", p.Handle, p.Offset, verifClone(p.Data), uint32(len(p.Data))
+	case *sshfx.FStatPacket:
+		v.Kind, v.Handle = "Fstat", p.Handle
+	case *sshfx.SetstatPacket:
+		v.Kind, v.Path = "Setstat", p.Path
+		v.Flags, v.Stat = verifFromFxAttrs(&p.Attrs)
+	case *sshfx.FSetstatPacket:
+		v.Kind, v.Handle = "Fsetstat", p.Handle
+		v.Flags, v.Stat = verifFromFxAttrs(&p.Attrs)
+	case *sshfx.OpenDirPacket:
+		v.Kind, v.Path = "Opendir", p.Path
+	case *sshfx.ReadDirPacket:
+		v.Kind, v.Handle = "Readdir", p.Handle
+	case *sshfx.RemovePacket:
+		v.Kind, v.Path = "Remove", p.Path
+	case *sshfx.MkdirPacket:
+		v.Kind, v.Path = "Mkdir", p.Path
+		v.Flags, v.Stat = verifFromFxAttrs(&p.Attrs)
+	case *sshfx.RmdirPacket:
+		v.Kind, v.Path = "Rmdir", p.Path
+	case *sshfx.RealPathPacket:
+		v.Kind, v.Path = "Realpath", p.Path
+	case *sshfx.StatPacket:
+		v.Kind, v.Path = "Stat", p.Path
+	case *sshfx.RenamePacket:
+		v.Kind, v.Path, v.Path2 = "Rename", p.OldPath, p.NewPath
+	case *sshfx.ReadLinkPacket:
+		v.Kind, v.Path = "Readlink", p.Path
+	case *sshfx.SymlinkPacket:
+		v.Kind, v.Path, v.Path2 = "Symlink", p.TargetPath, p.LinkPath
+	case *sshfx.ExtendedPacket:
+		v.ExtName = p.ExtendedRequest
+		switch d := p.Data.(type) {
+		case *openssh.StatVFSExtendedPacket:
+			v.Kind, v.Path = "ExtStatVFS", d.Path
+		case *openssh.POSIXRenameExtendedPacket:
+			v.Kind, v.Path, v.Path2 = "ExtPosixRename", d.OldPath, d.NewPath
+		case *openssh.HardlinkExtendedPacket:
+			v.Kind, v.Path, v.Path2 = "ExtHardlink", d.OldPath, d.NewPath
+		case *openssh.FSyncExtendedPacket:
+			v.Kind, v.Handle = "ExtFsync", d.Handle
+		case *sshfx.Buffer:
+			v.Kind, v.Data = "ExtRaw", verifClone(d.Bytes())
+		default:
+			v.Kind = "ExtUnknown"
+		}
+	case *sshfx.StatusPacket:
+		v.Kind, v.Code, v.Msg, v.Lang = "Status", uint32(p.StatusCode), p.ErrorMessage, p.LanguageTag
+	case *sshfx.HandlePacket:
+		v.Kind, v.Handle = "Handle", p.Handle
+	case *sshfx.DataPacket:
+		v.Kind, v.Data, v.Len = "Data", verifClone(p.Data), uint32(len(p.Data))
+	case *sshfx.NamePacket:
+		v.Kind = "Name"
+		for _, e := range p.Entries {
+			f, st := verifFromFxAttrs(&e.Attrs)
+			v.Names = append(v.Names, VerifName{Name: e.Filename, LongName: e.Longname, Flags: f, Stat: st})
+		}
+	case *sshfx.AttrsPacket:
+		v.Kind = "Attrs"
+		v.Flags, v.Stat = verifFromFxAttrs(&p.Attrs)
+	case *openssh.StatVFSExtendedReplyPacket:
+		v.Kind = "VFS"
+		v.VFS = [11]uint64{p.BlockSize, p.FragmentSize, p.Blocks, p.BlocksFree, p.BlocksAvail, p.Files, p.FilesFree, p.FilesAvail, p.FilesystemID, p.MountFlags, p.MaxNameLength}
+	case *sshfx.ExtendedReplyPacket:
+		v.Kind = "VFSRaw"
+		if d, ok := p.Data.(*sshfx.Buffer); ok {
+			v.Data = verifClone(d.Bytes())
+		}
+	default:
+		v.Kind = fmt.Sprintf("?%T", p)
+	}
+}
+
+// VerifFxConsumeCopy runs Buffer.ConsumeByteSliceCopy(hint) on a buffer holding b (a length-prefixed string
+// followed by anything), with hint = make([]byte, l, c) filled with fill (hint = nil when c < 0).
+// It returns the result, the number of bytes left in the buffer, and the buffer's error.
+func VerifFxConsumeCopy(b []byte, l, c int, fill byte) (out []byte, rest int, err error) {
+	buf := sshfx.NewBuffer(verifClone(b))
+	var hint []byte
+	if c >= 0 {
+		hint = verifHint(l, c, fill)
+	}
+	out = buf.ConsumeByteSliceCopy(hint)
+	return out, buf.Len(), buf.Err
+}
+
+// VerifFxBufferUnmarshal runs (*Buffer).UnmarshalBinary(data) on a Buffer whose contents are
+// make([]byte, l, c) filled with fill, and returns Bytes() and the Buffer's own MarshalBinary().
+func VerifFxBufferUnmarshal(data []byte, l, c int, fill byte) (bytesOut, marshalled []byte, err error) {
+	buf := sshfx.NewBuffer(verifHint(l, c, fill))
+	if err := buf.UnmarshalBinary(data); err != nil {
+		return nil, nil, err
+	}
+	m, err := buf.MarshalBinary()
+	return verifClone(buf.Bytes()), m, err
+}
+
+// VerifFxReadSeq reads the frames one after the other with (*RequestPacket).ReadFrom (raw = false) or
+// (*RawPacket).ReadFrom (raw = true), into ONE packet value and with ONE backing slice make([]byte, l, c)
+// (filled with fill; nil when c < 0). Each result is copied out before the next frame is read.
+func VerifFxReadSeq(frames [][]byte, l, c int, fill byte, raw bool, maxLen uint32) ([]VerifPkt, []error) {
+	var b []byte
+	if c >= 0 {
+		b = verifHint(l, c, fill)
+	}
+	var rp sshfx.RequestPacket
+	var rw sshfx.RawPacket
+	out := make([]VerifPkt, len(frames))
+	errs := make([]error, len(frames))
+	for i, f := range frames {
+		r := bytes.NewReader(f)
+		if raw {
+			errs[i] = rw.ReadFrom(r, b, maxLen)
+			out[i] = VerifPkt{Kind: "Raw", ID: rw.RequestID, Code: uint32(rw.PacketType), Data: verifClone(rw.Data.Bytes())}
+		} else {
+			errs[i] = rp.ReadFrom(r, b, maxLen)
+			out[i].ID = rp.RequestID
+			if rp.Request != nil {
+				verifFromFxPacket(rp.Request, &out[i])
+			}
+		}
+		if errs[i] == nil && r.Len() != 0 {
+			errs[i] = fmt.Errorf("verif: %d bytes of the frame were not read", r.Len())
+		}
+	}
+	return out, errs
+}
+
+// ---- the wire codec (package sftp) ----
+
+// VerifRootHeld is one packet value of the wire codec that is kept between decodes.
+type VerifRootHeld struct {
+	pkt encoding.BinaryUnmarshaler
+}
+
+// VerifRootHold creates the zero packet value makePacket would create for the request type typ;
+// typ 103 gives the DATA response packet.
+func VerifRootHold(typ uint8) (*VerifRootHeld, error) {
+	if fxp(typ) == sshFxpData {
+		return &VerifRootHeld{pkt: &sshFxpDataPacket{}}, nil
+	}
+	pkt, _ := makePacket(rxPacket{fxp(typ), nil}) // the (empty) packet is returned together with the short-packet error
+	if pkt == nil {
+		return nil, fmt.Errorf("verif: no request packet for type %d", typ)
+	}
+	return &VerifRootHeld{pkt: pkt}, nil
+}
+
+// Prefill sets Data (and Length) of a held WRITE / DATA packet to make([]byte, l, c) filled with fill.
+func (h *VerifRootHeld) Prefill(l, c int, fill byte) bool {
+	switch p := h.pkt.(type) {
+	case *sshFxpWritePacket:
+		p.Data, p.Length = verifHint(l, c, fill), uint32(l)
+	case *sshFxpDataPacket:
+		p.Data, p.Length = verifHint(l, c, fill), uint32(l)
+	default:
+		return false
+	}
+	return true
+}
+
+// Decode runs UnmarshalBinary(body) on the held value as it is and returns the value as a VerifPkt (deep copy)
+// and, where the type has an encoder, the held value's re-encoding through sendPacket.
+func (h *VerifRootHeld) Decode(body []byte) (VerifPkt, []byte, error) {
+	err := h.pkt.UnmarshalBinary(verifClone(body))
+	var v VerifPkt
+	switch p := h.pkt.(type) {
+	case *sshFxpDataPacket:
+		v = VerifPkt{Kind: "Data", ID: p.ID, Len: p.Length, Data: p.Data}
+	case requestPacket:
+		if err != nil {
+			return VerifPkt{}, nil, err
+		}
+		v = verifFromRequest(p)
+	}
+	v.Data, v.Attrs = verifClone(v.Data), verifClone(v.Attrs)
+	if err != nil {
+		return v, nil, err
+	}
+	var re []byte
+	if m, ok := h.pkt.(encoding.BinaryMarshaler); ok {
+		var out bytes.Buffer
+		if p, isData := h.pkt.(*sshFxpDataPacket); isData {
+			// MarshalBinary of DATA writes the header in front of Data IN PLACE and needs the spare capacity for it
+			q := &sshFxpDataPacket{ID: p.ID, Length: p.Length, Data: make([]byte, len(p.Data), len(p.Data)+dataHeaderLen)}
+			copy(q.Data, p.Data)
+			m = q
+		}
+		if err := sendPacket(&out, m); err != nil {
+			return v, nil, err
+		}
+		re = out.Bytes()
+	}
+	return v, re, nil
+}
+
+// VerifRecvSeq reads the concatenated frames with recvPacket through ONE allocator (the servers' pooled
+// pages), request order ids 1, 2, …, decodes each with makePacket and copies the result out; after frame i
+// the pages of its order id are released when release[i] is set (so that a later frame lands in a used page).
+func VerifRecvSeq(frames [][]byte, release []bool) ([]VerifPkt, []error) {
+	a := newAllocator()
+	defer a.Free()
+	r := bytes.NewReader(bytes.Join(frames, nil))
+	out := make([]VerifPkt, len(frames))
+	errs := make([]error, len(frames))
+	for i := range frames {
+		id := uint32(i + 1)
+		typ, body, err := recvPacket(r, a, id)
+		if err != nil {
+			errs[i] = err
+			break
+		}
+		pkt, err := makePacket(rxPacket{typ, body})
+		if err != nil {
+			errs[i] = err
+		} else {
+			out[i] = verifFromRequest(pkt)
+			out[i].Data, out[i].Attrs = verifClone(out[i].Data), verifClone(out[i].Attrs)
+		}
+		if i < len(release) && release[i] {
+			a.ReleasePages(id)
+		}
+	}
+	return out, errs
+}
+
+// VerifRootDecodeResponse decodes the body (what follows the type byte) of a STATUS, ATTRS or DATA response
+// with the wire codec's own client-side decoders (unmarshalStatus, unmarshalAttrs, sshFxpDataPacket).
+func VerifRootDecodeResponse(typ uint8, body []byte) (VerifPkt, error) {
+	b := verifClone(body)
+	switch fxp(typ) {
+	case sshFxpStatus:
+		id, _, err := unmarshalUint32Safe(b)
+		if err != nil {
+			return VerifPkt{}, err
+		}
+		se, ok := unmarshalStatus(id, b).(*StatusError)
+		if !ok {
+			return VerifPkt{}, fmt.Errorf("verif: unmarshalStatus gave no *StatusError")
+		}
+		return VerifPkt{Kind: "Status", ID: id, Code: se.Code, Msg: se.msg, Lang: se.lang}, nil
+	case sshFxpAttrs:
+		id, rest, err := unmarshalUint32Safe(b)
+		if err != nil {
+			return VerifPkt{}, err
+		}
+		flags, _, err := unmarshalUint32Safe(rest)
+		if err != nil {
+			return VerifPkt{}, err
+		}
+		st, _, err := unmarshalAttrs(rest)
+		if err != nil {
+			return VerifPkt{}, err
+		}
+		return VerifPkt{Kind: "Attrs", ID: id, Flags: flags, Stat: *st}, nil
+	case sshFxpData:
+		var p sshFxpDataPacket
+		if err := p.UnmarshalBinary(b); err != nil {
+			return VerifPkt{}, err
+		}
+		return VerifPkt{Kind: "Data", ID: p.ID, Len: p.Length, Data: verifClone(p.Data)}, nil
+	}
+	return VerifPkt{}, fmt.Errorf("verif: no client-side decoder function for type %d", typ)
+}
